@@ -125,6 +125,11 @@ class Project(object):
         if any(m.changed for m in self._module_cache.values()):
             return True
 
+        # cached scopes resolved their relative imports through these
+        if any(self._package_path(root) != parts
+               for root, parts in self._norm_cache.items()):
+            return True
+
         roots = [(p, list_stems(p)) for p in self.get_path()]
         for package, names in self._failed_imports.items():
             parts = package.split('.') if package else []
@@ -185,6 +190,18 @@ class Project(object):
         # type: (str) -> tuple[str | None, bool]
         return self._find(name)[:2]
 
+    def _package_path(self, root):
+        # type: (str) -> list[str]
+        """Names of the packages enclosing directory, outermost first"""
+        parts = []  # type: list[str]
+        # a relative file name ends at '' and '/' is its own parent
+        while root and os.path.exists(os.path.join(root, '__init__.py')):
+            parts.insert(0, os.path.basename(root))
+            if root == os.path.dirname(root):
+                break
+            root = os.path.dirname(root)
+        return parts
+
     def norm_package(self, package, filename):
         # type: (str, str) -> str
         if not package.startswith('.'):
@@ -198,22 +215,13 @@ class Project(object):
         for _ in range(len(package) - len(package.lstrip('.'))):
             root = os.path.dirname(root)
 
-        key = root
         try:
-            parts = self._norm_cache[key]
+            parts = self._norm_cache[root]
         except KeyError:
-            parts = []
-            # a relative file name ends at '' and '/' is its own parent
-            while root and os.path.exists(os.path.join(root, '__init__.py')):
-                parts.insert(0, os.path.basename(root))
-                if root == os.path.dirname(root):
-                    break
-                root = os.path.dirname(root)
+            parts = self._norm_cache[root] = self._package_path(root)
 
-            if not parts:
-                raise ImportError('Not a package: {} ({})'.format(filename, package))
-
-            self._norm_cache[key] = parts
+        if not parts:
+            raise ImportError('Not a package: {} ({})'.format(filename, package))
 
         package = package.lstrip('.')
         if package:
